@@ -1165,7 +1165,17 @@ class LayoutSwapper(LayoutManager):
             # If the distribution is the same then the communicators should
             # also be the same
             if (nDim1 == nDim2):
-                return all([c in handler1.communicators for c in handler2.communicators])
+                if (not all([c in handler1.communicators for c in handler2.communicators])):
+                    return False
+
+                # The data can only be rearranged locally if each communicator
+                # distributes the same dimension in both layouts
+                l1 = handler1.getLayout(layout1)
+                l2 = handler2.getLayout(layout2)
+                comms1 = list(handler1.communicators)
+                return all([c.Get_size() == 1 or
+                            l1.dims_order[comms1.index(c)] == l2.dims_order[j]
+                            for j, c in enumerate(handler2.communicators)])
 
             # Ensure that 2 is the larger handler to facilitate steps
             if (nDim1 > nDim2):
